@@ -315,9 +315,7 @@ func runScenario(sc *scenario, descr string) []string {
 	close(start)
 	done := make(chan struct{})
 	go func() { wg.Wait(); close(done) }()
-	select {
-	case <-done:
-	case <-time.After(20 * time.Second):
+	if !rc.waitDone(done) {
 		rc.log("w0 hang")
 		concStats.hung = true
 	}
@@ -351,9 +349,37 @@ func runScenario(sc *scenario, descr string) []string {
 		}
 		lines = append(lines, fmt.Sprintf("obs s%d %s %s", i, feed, st))
 	}
+	rc.mu.Lock() // goroutines of a hung scenario may still be counting
 	concStats.waits += rc.waits
 	concStats.timeouts += rc.tmos
+	rc.mu.Unlock()
 	return lines
+}
+
+// waitDone waits for the goroutines of a scenario. A hang is the code under test making no progress — not the machine:
+// when the 20 s limit expires (on a loaded or briefly frozen machine every pending timer fires at once as soon as the
+// process is scheduled again), the goroutines get a further 5 s in slices of 100 ms of real running time, and every
+// parked event is woken once per slice so that none sleeps past its own 25 ms deadline. Only what is still not done
+// then is reported as a hang.
+func (rc *recorder) waitDone(done chan struct{}) bool {
+	select {
+	case <-done:
+		return true
+	case <-time.After(20 * time.Second):
+	}
+	for i := 0; i < 50; i++ {
+		if rc.cond != nil {
+			rc.mu.Lock()
+			rc.cond.Broadcast()
+			rc.mu.Unlock()
+		}
+		select {
+		case <-done:
+			return true
+		case <-time.After(100 * time.Millisecond):
+		}
+	}
+	return false
 }
 
 var concStats struct {
